@@ -31,6 +31,9 @@ def run(tier):
     # the extent itself is read from sandbox memory and rewritten after every read
     import fetchcommon as fc
     nf, cf = fc.judge(chk, wd, "c10", "C10", ("wasm32", "lp16"))
+    # the same refusals in the library's DEFAULT failure configuration (no exceptions, no custom handler): the process ends
+    import abortcommon
+    abortcommon.judge(chk, wd, "C10")
     chk.count(evaluations=len(events) + nf, distinct=len(combos) + len(cf), traces=1)
     chk.cov["exhaustive"] = thorough
     chk.cov["scope"] = "9 operations x 7 start classes (null, first/last bytes, interior) x extents 0..region+2 (every 61st; all in " \
